@@ -223,6 +223,7 @@ func (g *gen) filePart(pInvalid int) *Part {
 	p := g.part(40, pInvalid, false)
 	p.P, p.Set, p.NestX, p.EmbA, p.EmbS, p.Iface, p.BadIface, p.Share = nil, nil, nil, nil, nil, nil, false, false
 	p.SM, p.MM, p.MA, p.Pairs = nil, nil, nil, nil
+	p.KP = nil
 	p.Arr, p.When, p.Peers, p.PM = nil, nil, nil, nil
 	p.PWhen, p.TU, p.Held = nil, nil, nil
 	p.Chain = 0
@@ -233,7 +234,10 @@ func (g *gen) filePart(pInvalid int) *Part {
 }
 
 func malformedYAML(id uint64) []byte {
-	switch id % 3 {
+	switch id % 4 {
+	case 3:
+		// well-formed, but a leaf's UnmarshalText fails with an error that wraps fs.ErrNotExist
+		return []byte(fmt.Sprintf("tu: \"load:/nonexistent/cert-%d.pem\"\n", id))
 	case 0:
 		return []byte("i: [1, 2")
 	case 1:
@@ -243,7 +247,10 @@ func malformedYAML(id uint64) []byte {
 }
 
 func malformed(id uint64) []byte {
-	switch id % 4 {
+	switch id % 5 {
+	case 4:
+		// well-formed, but a leaf's UnmarshalText fails with an error that wraps fs.ErrNotExist
+		return []byte(fmt.Sprintf(`{"TU": "load:/nonexistent/cert-%d.pem"}`, id))
 	case 0:
 		return []byte(`{"I": `)
 	case 1:
